@@ -40,6 +40,8 @@ KINDS = {
     'evolve': (('tdvp1', 'tdvp2', 'dmrg1', 'dmrg2'), False),
 }
 QSTYLES = ('u1', 'spin', 'boson', 'pair', 'large')
+EVOLVE_FN = {'tdvp1': 'integrate_local_singlesite', 'tdvp2': 'integrate_local_twosite',
+             'dmrg1': 'calculate_ground_state_local_singlesite', 'dmrg2': 'calculate_ground_state_local_twosite'}
 
 
 def cases(tier, seed):
@@ -501,7 +503,7 @@ def run_case(c):
         if ok:
             # the evolved state shares nothing with the Hamiltonian either
             _mutate(psi, 'inplace', rng)
-            k.compare(var, 'shares_state', ops, before, 'changed when the evolved state was overwritten in place')
+            k.compare(EVOLVE_FN[var], 'shares_state', ops, before, 'changed when the evolved state was overwritten in place')
     else:
         raise ValueError(kind)
     return dict(failures=k.fails, nontrivial=bool(k.returned), key=json.dumps(c, sort_keys=True), note=k.note)
